@@ -60,7 +60,16 @@ fn fixed_queries() -> Vec<Query> {
     ]
 }
 
+/// a str/bin/ext header announcing at least this many bytes beyond the end of the input
+const PREALLOC_GUARD: u64 = 1 << 20;
+/// how many of the guarded inputs are loaded for real (announced length <= 512 MiB), measured
+const PREALLOC_REAL_RUNS: u64 = 3;
+
 struct Ctx {
+    force: bool,
+    guarded: u64,
+    guarded_run: u64,
+    guarded_max: u64,
     pre: Engine,
     qs: Vec<Query>,
     base_answers: Vec<String>,
@@ -79,6 +88,20 @@ struct Tally {
 
 /// One load of `bytes` into the pre-populated engine. Returns the decode class.
 fn attempt(cx: &mut Ctx, sm: &mut Summary, t: &mut Tally, bytes: &[u8], what: &str) -> &'static str {
+    if bytes.len() >= 5 && bytes[..4] == MAGIC && bytes[4] == 0 {
+        if let Some((_, l)) = announced_overrun(bytes, 5, PREALLOC_GUARD) {
+            // class F25: loading this would make the decoder allocate (and zero) `l` bytes. Only a
+            // few are loaded for real; the rest are counted, not run (each costs up to seconds and GiBs).
+            cx.guarded += 1;
+            cx.guarded_max = cx.guarded_max.max(l);
+            if !cx.force && (cx.guarded_run >= PREALLOC_REAL_RUNS || l < (64 << 20) || l > (512 << 20) || !cx.hwm_ok) {
+                return "guarded";
+            }
+            cx.guarded_run += 1;
+            reset_hwm();
+            cx.hwm = vm_kb("VmHWM:");
+        }
+    }
     sm.oracle_evaluations += 1;
     let class = decode_class(bytes); // a first, stateless decode (also under test: must not panic)
     let replay = json!({"kind": "load", "bytes": hex(bytes), "what": what});
@@ -91,6 +114,9 @@ fn attempt(cx: &mut Ctx, sm: &mut Summary, t: &mut Tally, bytes: &[u8], what: &s
     }));
     let ms = t0.elapsed().as_millis();
     cx.max_ms = cx.max_ms.max(ms);
+    if ms > 100 && std::env::var("C10_TRACE").is_ok() {
+        eprintln!("slow load {} ms: {} len={} head={}", ms, what, bytes.len(), hex(&bytes[..bytes.len().min(16)]));
+    }
     let hwm = if cx.hwm_ok { vm_kb("VmHWM:") } else { 0 };
     let grown = hwm.saturating_sub(cx.hwm);
     cx.max_alloc_kb = cx.max_alloc_kb.max(grown);
@@ -174,7 +200,7 @@ fn attempt(cx: &mut Ctx, sm: &mut Summary, t: &mut Tally, bytes: &[u8], what: &s
 
 fn class_code(c: &str) -> u8 {
     match c {
-        "ok" | "rmp" => 0,
+        "ok" | "rmp" | "guarded" => 0,
         "version" => 1,
         "noheader" => 2,
         "legacy" => 3,
@@ -193,13 +219,22 @@ fn header_case(cs: &mut Cases, bytes: &[u8], class: &str, nontrivial: bool) {
     cs.case(expr, json!({"bytes_prefix": hex(shown), "len": bytes.len(), "impl_class": class}), nontrivial);
 }
 
-/// Replace the first occurrence of `from` by `to`.
+/// Replace every occurrence of `from` by `to` (None if there is none).
 fn surgery(b: &[u8], from: &[u8], to: &[u8]) -> Option<Vec<u8>> {
-    let i = b.windows(from.len()).position(|w| w == from)?;
-    let mut o = b[..i].to_vec();
-    o.extend_from_slice(to);
-    o.extend_from_slice(&b[i + from.len()..]);
-    Some(o)
+    let mut o = vec![];
+    let mut i = 0;
+    let mut hit = false;
+    while i < b.len() {
+        if b[i..].starts_with(from) {
+            o.extend_from_slice(to);
+            i += from.len();
+            hit = true;
+        } else {
+            o.push(b[i]);
+            i += 1;
+        }
+    }
+    if hit { Some(o) } else { None }
 }
 
 fn main() {
@@ -211,12 +246,13 @@ fn main() {
     let base_answers = answers(&pre, &qs);
     let base_bytes = pre.serialize_raw().unwrap();
     let hwm_ok = reset_hwm() && vm_kb("VmHWM:") > 0;
-    let mut cx = Ctx { pre, qs, base_answers, base_bytes, hwm: vm_kb("VmHWM:"), hwm_ok, max_ms: 0, max_alloc_kb: 0 };
+    let mut cx = Ctx { force: false, guarded: 0, guarded_run: 0, guarded_max: 0, pre, qs, base_answers, base_bytes, hwm: vm_kb("VmHWM:"), hwm_ok, max_ms: 0, max_alloc_kb: 0 };
     let mut tally = Tally::default();
 
     if let Some(p) = &a.replay {
         let v: serde_json::Value = serde_json::from_str(&std::fs::read_to_string(p).unwrap()).unwrap();
         let bytes = unhex(v["replay"]["bytes"].as_str().unwrap_or(""));
+        cx.force = true;
         let class = attempt(&mut cx, &mut sm, &mut tally, &bytes, "replay");
         println!("bytes={} class={} ok={} err={} max_ms={} max_alloc_kb={}", bytes.len(), class, tally.ok, tally.err, cx.max_ms, cx.max_alloc_kb);
         for f in sm.oracle_failures.iter().chain(sm.known_hits.iter()) {
@@ -283,6 +319,8 @@ fn main() {
     }
 
     // ---- enumeration over the buffers
+    let tstart = Instant::now();
+    let trace = std::env::var("C10_TRACE").is_ok();
     let mut sampled = 0usize;
     for (bi, buf) in buffers.iter().enumerate() {
         let n = buf.len();
@@ -290,6 +328,7 @@ fn main() {
         if attempt(&mut cx, &mut sm, &mut tally, buf, "valid buffer") != "ok" {
             sm.failure(None, "a valid buffer does not load", json!({"kind": "load", "bytes": hex(buf)}));
         }
+        if trace { eprintln!("buffer {} len {} at {:?} loads {}", bi, n, tstart.elapsed(), tally.ok + tally.err); }
         for k in 0..n {
             let c = attempt(&mut cx, &mut sm, &mut tally, &buf[..k], "prefix");
             if k < 12 || r.chance(1, 40) {
@@ -297,6 +336,7 @@ fn main() {
                 sampled += 1;
             }
         }
+        if trace { eprintln!("  prefixes done at {:?} loads {}", tstart.elapsed(), tally.ok + tally.err); }
         for i in 0..n {
             for bit in 0..8 {
                 let mut b = buf.clone();
@@ -308,6 +348,7 @@ fn main() {
                 }
             }
         }
+        if trace { eprintln!("  flips done at {:?} loads {}", tstart.elapsed(), tally.ok + tally.err); }
         let subst: &[u8] = if bi < 2 || a.scale > 1 { SUBST } else { &SUBST[..12] };
         for i in 0..n {
             for &v in subst {
@@ -450,6 +491,7 @@ fn main() {
         cx.hwm = vm_kb("VmHWM:");
         let mut h = MAGIC.to_vec();
         h.extend_from_slice(&[0x00, 0xdb, 0x10, 0x00, 0x00, 0x00]);
+        cx.force = true;
         attempt(&mut cx, &mut sm, &mut tally, &h, "str32 length prefix 256 MiB on a 10-byte input");
     }
 
@@ -457,6 +499,9 @@ fn main() {
     sm.extra.insert("loads_ok".into(), json!(tally.ok));
     sm.extra.insert("loads_err".into(), json!(tally.err));
     sm.extra.insert("decode_classes".into(), json!(tally.classes));
+    sm.extra.insert("guarded_not_loaded_announced_length_over_1MiB".into(), json!(cx.guarded - cx.guarded_run));
+    sm.extra.insert("guarded_loaded_and_measured".into(), json!(cx.guarded_run));
+    sm.extra.insert("guarded_max_announced_bytes".into(), json!(cx.guarded_max));
     sm.extra.insert("max_case_ms".into(), json!(cx.max_ms as u64));
     sm.extra.insert("max_peak_rss_growth_kb".into(), json!(cx.max_alloc_kb));
     sm.extra.insert("peak_rss_probe_available".into(), json!(cx.hwm_ok));
